@@ -129,6 +129,41 @@ def global_fingerprint():
     return fp
 
 
+_GBASE = {}
+
+
+def reset_globals():
+    """every history starts from the module-level state the library had when it was first looked at (normally: as imported), so
+    that a finding that involves module-level state replays identically within one process"""
+    import copy
+    import sys
+
+    global_fingerprint()
+    for name, k in _GMODS["cands"] or []:
+        v = vars(sys.modules[name]).get(k)
+        if (name, k) not in _GBASE:
+            try:
+                _GBASE[(name, k)] = copy.deepcopy(v)
+            except Exception:
+                _GBASE[(name, k)] = None
+            continue
+        b = _GBASE[(name, k)]
+        try:
+            if isinstance(v, dict) and isinstance(b, dict):
+                v.clear()
+                v.update(copy.deepcopy(b))
+            elif isinstance(v, list) and isinstance(b, list):
+                v[:] = copy.deepcopy(b)
+            elif isinstance(v, set) and isinstance(b, set):
+                v.clear()
+                v.update(copy.deepcopy(b))
+            elif torch.is_tensor(v) and torch.is_tensor(b) and v.shape == b.shape:
+                with torch.no_grad():
+                    v.copy_(b)
+        except Exception:
+            pass
+
+
 def snap_state(m):
     d = {}
     for n, p in list(m.named_parameters()) + list(m.named_buffers()):
@@ -176,6 +211,7 @@ def explore(obj, ops_table, hist, kind, train, is_eval_repeatable=True, refs=Non
     out = []
     first = {}
     held = []
+    reset_globals()
     for step, op in enumerate(hist):
         fn, raw_args = ops_table[op]
         passed, mon = [], []
